@@ -272,6 +272,12 @@ theorem default_argument_names_the_cgroup (comp name : List Char) :
     OomdModel.Path.fnm (OomdModel.Path.globEscape comp) name = true ↔ name = comp :=
   OomdModel.Path.fnm_globEscape comp name
 
+/-- ... also under the leading-period rule `glob(3)` applies to directory entries (`FNM_PERIOD`): a cgroup whose name starts with
+a period is still named by its own escaped name -/
+theorem default_argument_names_the_cgroup_period (comp name : List Char) :
+    OomdModel.Path.fnmatch (OomdModel.Path.globEscape comp) name = true ↔ name = comp :=
+  OomdModel.Path.fnmatch_globEscape comp name
+
 /-- escaping adds no path separator: the components of the pattern are the escaped components of the path -/
 theorem escape_keeps_separators (s : List Char) :
     (OomdModel.Path.globEscape s).count '/' = s.count '/' := by
